@@ -78,7 +78,7 @@ package sender
 //@ extern (sender.File).Read params f, p
 //@   effect srcread(fileSrc(data(f)))
 //@   modifies contents(p)
-//@   ensures 0 <= n && n <= len(p)
+//@   ensures 0 <= result && result <= len(p)
 //@ extern (sender.File).Seek params f, offset, whence
 //@ extern (sender.File).Stat params f
 //@   effect srcread(fileSrc(data(f)))
